@@ -286,6 +286,33 @@ pub fn resolve(server: &Server, action: &CodeAction) -> Result<String, String> {
     })
 }
 
+/// (key, full new text) pairs of the edits in the `pick`-th code action offered at `line`, resolved
+pub fn action_edits(server: &Server, key: &str, line: u32, pick: usize) -> Vec<(String, String)> {
+    let acts = match code_actions(server, key, line) {
+        Ok(a) if !a.is_empty() => a,
+        _ => return vec![],
+    };
+    let a = &acts[pick % acts.len()];
+    let resolved = match guarded(|| server.handle_code_action_resolve(a)) {
+        Ok(r) => r,
+        Err(_) => return vec![],
+    };
+    let mut out = vec![];
+    if let Some(WorkspaceEdit { document_changes: Some(DocumentChanges::Operations(ops)), .. }) = resolved.edit {
+        for op in ops {
+            if let DocumentChangeOperation::Edit(e) = op {
+                let k = short_uri(&e.text_document.uri).trim_end_matches(".md").to_string();
+                for x in e.edits {
+                    if let OneOf::Left(t) = x {
+                        out.push((k.clone(), t.new_text));
+                    }
+                }
+            }
+        }
+    }
+    out
+}
+
 /// (kind, plain text) of the block found at each line of `key`, as the server's graph sees it
 pub fn blocks_at_lines(server: &Server, key: &str, lines: usize) -> Result<String, String> {
     guarded(|| {
